@@ -215,6 +215,12 @@ class C01(RunSpec):
         if idx % 16 == 3:
             # a local search pulled towards / across a face, with the method name spelt the way scipy itself accepts it
             p.update({"leaf": _cycle(["local", "local_maxiter"], idx // 16), "fams": ["linear", "face"], "levels": [2, 3], "local_method": "l-bfgs-b"})
+        if idx % 16 == 11:
+            # CMA-ES left to run until its own termination criteria fire, pulled onto a face / into a corner: by then the mean of
+            # its search distribution (kept in the engine's unbounded coordinates) typically lies outside the box
+            p.update({"leaf": _cycle(CMA_ENGINES, idx // 16), "fams": ["face", "linear", "face"], "levels": [2, 2, 3], "gsc": "melimit", "free_lscs": True,
+                      "root": _cycle(["sea", "de", "shade", "lhs"], idx // 16), "allow_cutoff": False})
+            p.pop("gscs", None)
         if idx % 16 == 15:
             p = {"kind": "minimize", "box": p["box"], "fams": p["fams"], "dim": (2, 5), "same_callable_two_boxes": bool((idx // 16) % 2)}
         return p
@@ -223,6 +229,11 @@ class C01(RunSpec):
         d = super().make_case(seed, idx, tier)
         if idx % 16 == 3 and d.get("kind") == "tree" and d["levels"][-1]["engine"].startswith("local"):
             d["levels"][-1]["method"] = "l-bfgs-b"
+        if idx % 16 == 11 and d.get("kind") == "tree" and d["levels"][-1]["engine"] in CMA_ENGINES:
+            d["levels"][-1]["gens"] = 25
+            d["levels"][-1]["lsc"] = {"k": "dontstop"}
+            d["gsc"] = {"k": "melimit", "n": 14}
+            d["options"].pop("log_level", None)
         if idx % 16 == 7 and d.get("kind") == "tree":
             # a used configuration deep-copied and pointed at a problem over another box (see harness.run_retarget_pair)
             rng = gen.case_rng(self.prop, seed, idx, "retarget")
@@ -235,6 +246,7 @@ class C01(RunSpec):
         fl = [(f"engine.{e}", 1, "engine of the quantifier on some level") for e in ROOT_ENGINES + CMA_ENGINES + LEAF_ONLY]
         fl += [(f"box.{b}", 1, "box class") for b in gen.BOX_CLASSES]
         fl += [("C01.on_face.LocalDeme metaepoch", 1, "a local search touched a face"), ("C01.evals_checked", 1000, "evaluations observed")]
+        fl += [("C01.cma_deme_ended_by_cma_es_own_stop_with_the_distribution_mean_outside_the_box", 2, "CMA deme that ran to CMA-ES' own termination with its distribution mean outside the box")]
         fl += [("local_method_name_in_lower_case", 2, "local level whose method name is given in lower case")]
         fl += [("retargeted_configurations_completed", 2, "trees built from a deep-copied, re-targeted configuration"), ("minimize_after_same_callable_on_another_box", 1, "minimize() of a callable that was minimised over another box before")]
         return fl
@@ -446,6 +458,12 @@ class C05(RunSpec):
             # AllStopped with hibernation: the state "every awake deme has stopped, a sleeping one is still active" must not count as stopped
             p.update({"gsc": "allstopped", "hibernation": True, "n_levels": 2, "sprout": _cycle(["nbc", "simple", "nbc"], idx // 10), "level_limit": 2,
                       "root": _cycle(["sea", "de", "shade"], idx // 10), "leaf": _cycle(["sea", "cma", "de"], idx // 10), "fams": ["sphere", "rastrigin"], "free_lscs": True})
+        if idx % 10 == 7:
+            # wind-down with several generations per metaepoch: first-true is placed (pilot-then-target) inside a metaepoch, so the
+            # demes still to run - the root at least - start a metaepoch configured for >= 2 generations with the GSC already true
+            p.update({"gsc": "evals", "seeded_p": 1.0, "levels": [2, 2, 3], "hibernation": False, "free_lscs": True, "lscs": ["dontstop"], "allow_cutoff": False,
+                      "root": _cycle(["shade", "de", "sea", "ga", "mwea", "de_dither"], idx // 10), "leaf": _cycle(["cma", "shade", "cma_warm", "sea", "cma", "de"], idx // 10), "inner": _cycle(["de", "shade", "sea"], idx // 10), "level_limit": 4,
+                      "multi_generation_wind_down": True})
         if idx % 9 == 8:
             # (reuse pair) stop conditions must not carry anything over from the first tree: demes that stop, ids that repeat
             p["gsc"] = _cycle(["fevals", "evals", "fevals", "nononroot", "allstopped", "fevals"], idx // 9)
@@ -461,6 +479,10 @@ class C05(RunSpec):
         if d.get("kind") == "tree" and idx % 10 == 3 and not d.get("reuse") and d["gsc"]["k"] == "allstopped":
             d["levels"][0]["lsc"] = {"k": "melimit", "n": 12}
             d["levels"][1]["lsc"] = {"k": "melimit", "n": 1 + (idx // 10) % 2}
+        if d.get("kind") == "tree" and idx % 10 == 7 and not d.get("reuse") and d["gsc"]["k"] == "evals":
+            for lv in d["levels"]:
+                if "gens" in lv:
+                    lv["gens"] = max(2, min(lv["gens"], 4))
         if d.get("kind") == "tree" and idx % 5 == 2:
             d["rerun"] = True
             d["entry"] = "tree"
@@ -552,6 +574,7 @@ class C05(RunSpec):
         fl = [(f"C05.gsc_true.{g}", 1, "GSC class seen true") for g in gen.GSC_KINDS]
         fl += [("C05.gsc_consulted_while_only_sleeping_demes_are_active", 2, "GSC consulted while every awake deme has stopped and a sleeping one is still active")]
         fl += [("reruns_of_a_finished_tree", 5, "run() called again on a finished tree"), ("explicit_steps_before_run", 5, "runs carried out in pieces (run_step() calls, then run())")]
+        fl += [(f"C05.metaepoch_entered_after_true_with_2_or_more_generations_configured.{e}", 1, "wind-down of an engine configured for >= 2 generations per metaepoch") for e in ("EADeme", "DEDeme", "SHADEDeme", "CMADeme")]
         fl += [("C05.targeted_runs_hit_the_chosen_consultation", 3, "pilot-then-target placements that hit the chosen consultation")]
         fl += [
             ("C05.first_true_inside_with_2_to_run", 1, "first-true inside a metaepoch with >=2 demes still to run"),
